@@ -112,6 +112,8 @@ def _site(prog, symptom, detail):
 
 def concrete_check(prog, rows, bind):
     """Real compile + real SQLite (both scan orders) vs the plain list evaluator (multiset)."""
+    if not sqlprogs.determinate(prog, bind):
+        return False, "indeterminate", None
     env0 = sqlprogs.concrete_env(prog, bind)
     exps = [common.canon(pyeval(prog, rows, bind, env0.tags, prefer=p)) for p in ("l", "r")]
     for reverse in (False, True):
